@@ -7,8 +7,10 @@ CONF = {
                 'real timing is explored at run time (random pacing, bursts, bursts while the cache lock is held); the theorem quantifies over all '
                 'interleavings of the machine\'s atomic transitions',
                 'the verifEvent hook (build tag verif) reports the filter decisions; a fresh cache built by the harness after the history is the reference'],
-    'assumptions': ['configured Spec directories are distinct, not nested, and are never renamed; files are not modified through a second hard link or a symlink target',
-                    'the inotify queue does not overflow (needs more than 16384 undelivered events; IN_Q_OVERFLOW is ignored by the code)',
+    'assumptions': ['configured Spec directories are not nested and are never renamed (a rename disagrees: notes/audit/DEFECT-C11-dir-renamed-away.md); a directory which is a '
+                    'symbolic link is created and removed together with the directory it leads to (replacing the link alone disagrees: DEFECT-C11-symlinked-dir-retarget.md); '
+                    'files are not modified through a second hard link or a symlink target',
+                    'the inotify queue does not overflow (needs more than 16384 undelivered events; IN_Q_OVERFLOW is ignored by the code: notes/audit/DEFECT-C11-queue-overflow.md)',
                     'update()+refresh() of one handler run / query is atomic with respect to the creation and population of a directory (a directory missing at '
                     'watcher.Add is not populated before the scan of the same refresh); false of the code in a window of 10-100 microseconds: known finding '
                     'C11/add-scan-window, theorem C11_convergence_refuted_nonatomic_refresh; the harness populates a directory it created 2 ms later at the '
@@ -32,11 +34,12 @@ CHECK = {
             'Tie to the code on every run: (i) each operation kind under a bare fsnotify.Watcher against the rule table, (ii) random histories at random pacing '
             'against a real auto-refresh cache without any Refresh call, polled until equal to a fresh cache (oracle) and compared with the machine\'s final answer '
             '(correspondence), (iii) the filter decisions logged by the verifEvent hook against the model\'s filter.',
-    'note': 'Not modelled: inotify queue overflow, directory renames, nested or repeated configured directories, chmod, modification through other hard links / symlink '
+    'note': 'Not modelled: inotify queue overflow, directory renames, nested configured directories, chmod, modification through other hard links / symlink '
             'targets, the window between Add and scan inside one refresh (update+refresh is one atomic transition; what goes wrong in that window is the known finding '
             'C11/add-scan-window). Operations covered: create+write, empty create, '
             'rewrite, replace by rename, move in, hard link, symlink (event table only), rename to Spec and non-Spec names, move out, remove; directory missing at start, '
-            'created later, removed, re-created. Refresh as a function of the scanned view (priority, same-directory conflicts, files in error) is part of the model and '
+            'created later, removed, re-created; directories configured in non-clean spellings, twice, or as symbolic links; definitions that change under an unchanged '
+            'device name (tag); every query function as the first query after an unannounced appearance; Cache.WriteSpec / RemoveSpec as sources. Refresh as a function of the scanned view (priority, same-directory conflicts, files in error) is part of the model and '
             'corresponded against fresh caches. Trusted: Coq kernel + vm_compute; harness; observed event rules.',
     'technique': 'Coq proof (invariants of a state machine over all interleavings) + observed inotify/fsnotify rule table + randomized-pacing convergence runs judged by vm_compute',
 }
